@@ -175,6 +175,7 @@ func (e *Exec) runPath(fn *ssa.Function, it workItem) (kind, msg, fatal string) 
 	e.lastNow = nil
 	e.decOrigin = nil
 	e.b64Origin = nil
+	e.udpSocks, e.udpNextPort, e.syncMaps, e.onceDone = nil, 0, nil, nil
 	e.randCtr = 0
 	if len(e.prefix) == 0 {
 		e.pmodel = nil
